@@ -112,10 +112,14 @@ AddField(f) ==
                     r \in {q \in 1..NM(f) : Plain(f.msgs[q])}, l \in {1, 3} \cup (IF f.syntax = "proto2" THEN {2} ELSE {}), st \in RefStyles}
             \cup {AppendField(f, i, NewField(nm, n, l, KEnum, RefTo(EnumFullOf(f, r), f.enums[r].name, st))) :
                     r \in 1..Len(f.enums), l \in {1, 3}, st \in RefStyles}
+            \* the same with `type` omitted (parsers that work file by file leave it out): the kind comes from what type_name denotes
+            \cup {AppendField(f, i, NewField(nm, n, l, 0, "." \o MsgFullOf(f, r))) : r \in {q \in 1..NM(f) : Plain(f.msgs[q])}, l \in {1, 3}}
+            \cup {AppendField(f, i, NewField(nm, n, 1, 0, "." \o EnumFullOf(f, r))) : r \in 1..Len(f.enums)}
             \cup (IF f.deps = <<>> THEN {}
                   ELSE {AppendField(f, i, NewField(nm, n, 1, KMessage, ".dep.DM")),
                         AppendField(f, i, NewField(nm, n, 1, KEnum, ".dep.DC")),
-                        AppendField(f, i, NewField(nm, n, 1, KEnum, ".dep.DO"))})
+                        AppendField(f, i, NewField(nm, n, 1, KEnum, ".dep.DO"))}
+                       \cup (IF Thorough THEN {AppendField(f, i, NewField(nm, n, 1, 0, ".dep.DM")), AppendField(f, i, NewField(nm, n, 1, 0, ".dep.DO"))} ELSE {}))
             \cup {AppendField(f, i, [NewField(nm, 536870911, 1, 5, "") EXCEPT !.name = "fmax"])}
     : i \in Targets(f)}
 
@@ -136,6 +140,16 @@ AddComposite(f) ==
            mapWith(kt, vt, vref) == [AppendField(f, i, NewField(mname, n, 3, KMessage, "." \o Join(full, ename)))
                                        EXCEPT !.msgs = Append(@, entry(kt, vt, vref))]
            oname == "o" \o ToString(Len(m.oneofs) + 1)
+           \* a group-like field (proto2 group; under editions a DELIMITED message field named after its nested message type)
+           \* with an explicit json_name, and the message it is named after
+           glike(num, json) == IF f.syntax = "proto2"
+                               THEN [NewField(Lower(gname), num, 1, KGroup, "." \o Join(full, gname)) EXCEPT !.hj = TRUE, !.json = json]
+                               ELSE [NewField(Lower(gname), num, 1, KMessage, "." \o Join(full, gname)) EXCEPT !.hj = TRUE, !.json = json, !.feat.me = "DELIMITED"]
+           gmsg == [NewMsg(gname, i) EXCEPT !.fields = <<NewField("a", 1, 1, 5, "")>>]
+           \* another field whose exact JSON name is the lower-casing of the group-like field's JSON name: by its own name, or by json_name
+           akaByName(num) == NewField("aka", num, 1, 5, "")
+           akaByJSON(num) == [NewField("f" \o ToString(k), num, 1, 9, "") EXCEPT !.hj = TRUE, !.json = "aka"]
+           withFields(xs) == [f EXCEPT !.msgs[i].fields = @ \o xs, !.msgs = Append(@, gmsg)]
            noSynth == \A q \in 1..Len(m.fields) : ~m.fields[q].p3opt
            lastIn == Len(m.fields) > 0 /\ Len(m.oneofs) > 0 /\ m.fields[Len(m.fields)].oneof = Len(m.oneofs) /\ noSynth
        IN IF ~room \/ NM(f) >= MaxMsgs + 1 THEN {}
@@ -144,6 +158,13 @@ AddComposite(f) ==
                 THEN {[AppendField(f, i, NewField(Lower(gname), n, 1, KGroup, "." \o Join(full, gname)))
                          EXCEPT !.msgs = Append(@, [NewMsg(gname, i) EXCEPT !.fields = <<NewField("a", 1, 1, 5, "")>>])]}
                 ELSE {})
+               \* the lower-cased alias of a group-like field against another field's exact JSON name, in both declaration orders
+               \cup (IF f.syntax # "proto3" /\ Len(m.fields) + 2 <= MaxFields
+                     THEN {withFields(<<glike(n, "AKA"), akaByName(n + 1)>>), withFields(<<akaByName(n), glike(n + 1, "AKA")>>),
+                           withFields(<<glike(n, "AKA"), akaByJSON(n + 1)>>), withFields(<<akaByJSON(n), glike(n + 1, "AKA")>>)}
+                     ELSE {})
+               \* a group-like field of an editions file on its own (text name = message name, lower-cased aliases)
+               \cup (IF f.syntax = "editions" THEN {withFields(<<glike(n, "gJson")>>)} ELSE {})
                \* maps
                \cup {mapWith(5, 5, ""), mapWith(9, 9, "")}
                \cup {mapWith(9, KMessage, "." \o MsgFullOf(f, 1))}
@@ -231,7 +252,10 @@ AddExtension(f) ==
                    \cup (IF f.syntax = "proto2" THEN {[t |-> 5, l |-> 3, p |-> "t", z |-> FALSE]} ELSE {})}
           \cup (IF NM(f) = 0 THEN {}
                 ELSE {[f EXCEPT !.exts = Append(@, [ext(p, ee, 1, KMessage, "." \o MsgFullOf(f, 1)) EXCEPT !.lazy = TRUE])] :
-                        p \in {q \in lastp..NM(f) : q = 0 \/ Plain(f.msgs[q])}, ee \in extendees})
+                        p \in {q \in lastp..NM(f) : q = 0 \/ Plain(f.msgs[q])}, ee \in extendees}
+                     \* `type` omitted
+                     \cup {[f EXCEPT !.exts = Append(@, ext(p, ee, 1, 0, "." \o MsgFullOf(f, 1)))] :
+                             p \in {q \in lastp..NM(f) : q = 0 \/ Plain(f.msgs[q])}, ee \in extendees})
 
 AddService(f) ==
   IF NM(f) = 0 \/ ~Plain(f.msgs[1]) THEN {}
